@@ -190,13 +190,21 @@ def run_schedule(case):
     n = len(progs)
     ctl = Ctl(n)
     okflag = [None] * n
+    nbad = [0]
 
     def make(t):
         c = ctl
         c.gate('enter')
         c.ev('call', t, c.cur[t])
         c.gate('exit')
-        if okflag[t]:
+        if okflag[t] == 'bad' and case['target'] == 'loader':
+            # the loader hands back a malformed (non-mapping) payload: Loader._load_pipeline - the
+            # creator as far as the cache is concerned - has to refuse it, i.e. this creation fails
+            nbad[0] += 1
+            bad = [[1, 2], 'steps', None, 7][nbad[0] % 4]
+            c.ev('failed', t, c.cur[t])
+            return PipelineDefinition(pipeline=bad, info=None) if nbad[0] % 3 == 0 else bad
+        if okflag[t] is True:
             # half of the loader's creations are bare mappings (the Loader wraps them)
             raw = {'steps': [], 'n': len(c.objs)}
             o = raw if (case['target'] == 'loader' and len(c.objs) % 2) else \
